@@ -170,6 +170,7 @@ type outcome struct {
 	Text   string  `json:"text"`
 	PathPC bool    `json:"pathpc"` // this concretization has " pc=" inside a file path
 	Cut    bool    `json:"cut"`    // the name ends in the truncation marker: frames is a prefix
+	Entry  string  `json:"entry"`  // "function" (telemetryCounterName) or "monitor" (a monitor process fed through stdin)
 	amb    bool
 	raw    string
 	err    string
@@ -262,10 +263,10 @@ var hungOnce bool
 // observe runs the real code on text and abstracts the result.
 func observe(text []byte, vt *valueTable) outcome {
 	if hungOnce {
-		return outcome{Kind: "hang", Frames: []frame{}, LenOK: true}
+		return outcome{Kind: "hang", Frames: []frame{}, LenOK: true, Entry: "function"}
 	}
 	name, err, pan, hung := runName(text)
-	o := outcome{Frames: []frame{}, LenOK: true}
+	o := outcome{Frames: []frame{}, LenOK: true, Entry: "function"}
 	switch {
 	case hung:
 		hungOnce = true
@@ -281,6 +282,11 @@ func observe(text []byte, vt *valueTable) outcome {
 		}
 		return o
 	}
+	return readBack(name, vt, o)
+}
+
+// readBack abstracts a counter name into the vocabulary of CrashParse.tla.
+func readBack(name string, vt *valueTable, o outcome) outcome {
 	o.raw = name
 	o.Text = digest(name)
 	o.LenOK = len(name) <= maxNameLen
@@ -838,6 +844,198 @@ func TestVerifC14Vec(t *testing.T) {
 	rt.Out(rt.M{"kind": "summary", "vectors": len(in.Vectors), "calls": calls, "hung": hungOnce})
 }
 
+// ------------------------------------------------------------ the monitor
+
+// runMonitor re-executes the test binary as the crash monitor, writes text to
+// its stdin and returns the counters it recorded.
+func runMonitor(exe, dir string, text []byte) (names []string, problem string) {
+	out := filepath.Join(dir, "recorded")
+	os.Remove(out)
+	cmd := exec.Command(exe)
+	cmd.Env = append(os.Environ(), "VERIF_C14_MONITOR="+out, "TMPDIR="+dir, "VERIF_C14_CRASH=")
+	cmd.Stdin = bytes.NewReader(text)
+	done := make(chan error, 1)
+	if err := cmd.Start(); err != nil {
+		return nil, "cannot start the monitor: " + err.Error()
+	}
+	go func() { done <- cmd.Wait() }()
+	select {
+	case <-done:
+	case <-time.After(60 * time.Second):
+		cmd.Process.Kill()
+		return nil, "hang"
+	}
+	data, _ := os.ReadFile(out)
+	for _, ln := range strings.Split(string(data), "\n") {
+		if ln == "" {
+			continue
+		}
+		n, err := strconv.Unquote(ln)
+		if err != nil {
+			return nil, "unreadable record " + ln
+		}
+		names = append(names, n)
+	}
+	// crash texts the monitor could not parse are saved as *.crash: clean up
+	if fs, _ := filepath.Glob(filepath.Join(dir, "*.crash")); len(fs) > 0 {
+		for _, f := range fs {
+			os.Remove(f)
+		}
+	}
+	return names, ""
+}
+
+const monitorLimit = 1 << 20 // sizes around which the padded reports are built
+
+// TestVerifC14Monitor: the entry point is the whole monitor process, fed
+// through a pipe.  Every abstract report is rendered once (canonical filler)
+// and given to telemetryCounterName and to a monitor process; then the same
+// report is given to monitor processes again with ONE filler text (a message
+// line before the goroutines, else the arguments of a symbol line, else a file
+// path) blown up so that the 1 MiB mark of the text falls inside the first
+// pc= field after it, between two frames, inside the goroutine header, inside
+// the blown-up text itself, and just before the end.  Messages, arguments and
+// paths are "other text": all outcomes must be the one the specification
+// gives for the report, or an error.
+func TestVerifC14Monitor(t *testing.T) {
+	defer rt.Flush()
+	var in struct {
+		Vectors []vecIn `json:"vectors"`
+		Show    []int   `json:"show"`
+	}
+	if err := rt.In(&in); err != nil {
+		t.Skip(err)
+	}
+	show := map[int]bool{}
+	for _, id := range in.Show {
+		show[id] = true
+	}
+	exe, err := os.Executable()
+	if err != nil {
+		t.Fatal(err)
+	}
+	dir := t.TempDir()
+	spawns := 0
+	for _, v := range in.Vectors {
+		if len(in.Show) > 0 && !show[v.ID] {
+			continue
+		}
+		vt := newValueTable()
+		vr := rand.New(rand.NewSource(rt.Seed()*1000003 + int64(v.ID)*31))
+		c := concretize(v.Kinds, 0, vr, vt, false)
+		lines := strings.Split(c.text, "\n")
+		// which filler text is blown up, and where the pad goes in that line
+		target, at := -1, 0
+		phase := 0
+		for i, k := range v.Kinds {
+			if i > 0 && phase == 0 && k == "NoParen" {
+				target, at = i, len(lines[i])
+				break
+			}
+			if k == "HdrRun" {
+				phase = 1
+			}
+		}
+		if target < 0 {
+			for i, k := range v.Kinds {
+				if k == "SymPlain" {
+					target, at = i, strings.Index(lines[i], "(")+1
+					break
+				}
+			}
+		}
+		if target < 0 {
+			for i, k := range v.Kinds {
+				if k == "LocPc" {
+					target, at = i, 1 // after the tab
+					break
+				}
+			}
+		}
+		padded := func(n int) string {
+			ls := append([]string{}, lines...)
+			ls[target] = ls[target][:at] + strings.Repeat("x", n) + ls[target][at:]
+			return strings.Join(ls, "\n")
+		}
+		texts := []string{c.text}
+		what := []string{"function", "monitor"}
+		if target >= 0 {
+			// offsets (in the unpadded text) that the 1 MiB mark shall hit
+			offsetOf := func(line int) int { return len(strings.Join(lines[:line], "\n")) + 1 }
+			after := offsetOf(target) + len(lines[target])
+			var marks []int
+			names := []string{}
+			for i := target + 1; i < len(lines); i++ { // inside the first pc= field after the target
+				if k := strings.LastIndex(lines[i], " pc=0x"); k >= 0 {
+					marks, names = append(marks, offsetOf(i)+k+len(" pc=0x")+3), append(names, "monitor:mark-in-pc")
+					break
+				}
+			}
+			for i := target + 1; i < len(lines); i++ { // at the start of the second entry of the block / a later line
+				if strings.HasPrefix(v.Kinds[i], "Sym") && i > 0 && strings.HasPrefix(v.Kinds[i-1], "Loc") {
+					marks, names = append(marks, offsetOf(i)), append(names, "monitor:mark-between-frames")
+					break
+				}
+			}
+			for i := target + 1; i < len(lines); i++ {
+				if v.Kinds[i] == "HdrRun" {
+					marks, names = append(marks, offsetOf(i)+12), append(names, "monitor:mark-in-header")
+					break
+				}
+			}
+			marks, names = append(marks, len(c.text)-1), append(names, "monitor:mark-before-end")
+			for j, m := range marks {
+				if m > after {
+					texts, what = append(texts, padded(monitorLimit-m)), append(what, names[j])
+				}
+			}
+			texts, what = append(texts, padded(monitorLimit+100)), append(what, "monitor:mark-in-padding")
+		}
+		var obs []outcome
+		var ds []rt.M
+		for i, w := range what {
+			text := texts[0]
+			if i >= 2 {
+				text = texts[i-1]
+			}
+			var o outcome
+			if w == "function" {
+				o = observe([]byte(text), vt)
+			} else {
+				spawns++
+				names, problem := runMonitor(exe, dir, []byte(text))
+				o = outcome{Frames: []frame{}, LenOK: true, Entry: "monitor"}
+				switch {
+				case problem == "hang":
+					o.Kind = "hang"
+				case problem != "":
+					t.Fatal(problem)
+				case len(names) == 0:
+					o.Kind = "none" // the monitor recorded nothing
+				case len(names) > 1:
+					o.Kind, o.raw = "other", strings.Join(names, " | ")
+				case names[0] == "crash/malformed":
+					o.Kind = "err"
+				default:
+					o = readBack(names[0], vt, o)
+				}
+			}
+			obs = append(obs, o)
+			d := detail(o)
+			d["what"], d["bytes"] = w, len(text)
+			ds = append(ds, d)
+		}
+		rec := recordOf("monitor", v.ID, c.attrs, c.vid, obs)
+		rec["kinds"] = v.Kinds
+		rec["details"] = ds
+		if show[v.ID] {
+			rec["texts"] = []string{c.text}
+		}
+		rt.Out(rec)
+	}
+	rt.Out(rt.M{"kind": "summary", "vectors": len(in.Vectors), "spawns": spawns})
+}
+
 // ------------------------------------------------------------- real crashes
 
 var (
@@ -1001,6 +1199,17 @@ func crashMain(s string) {
 func TestMain(m *testing.M) {
 	if s := os.Getenv("VERIF_C14_CRASH"); s != "" {
 		crashMain(s)
+	}
+	if out := os.Getenv("VERIF_C14_MONITOR"); out != "" {
+		// this process is the crash monitor: stdin is the pipe from the "parent"
+		crashmonitor.VRunChild(func(name string) {
+			f, err := os.OpenFile(out, os.O_WRONLY|os.O_CREATE|os.O_APPEND, 0666)
+			if err == nil {
+				fmt.Fprintf(f, "%q\n", name)
+				f.Close()
+			}
+		})
+		os.Exit(4) // not reached
 	}
 	os.Exit(m.Run())
 }
